@@ -57,7 +57,34 @@ func (w *writer) open() error {
 
 	w.file = file
 	w.writer = bufio.NewWriter(file)
+	if endsInPartialLine(w.target) {
+		// The process that wrote the last line was killed in the middle of
+		// it. What is appended now must start on a line of its own, or it
+		// would be lost together with the fragment.
+		_ = w.writer.WriteByte('\n')
+	}
 	return nil
+}
+
+// endsInPartialLine reports whether the file is non-empty and its last byte
+// is not a line break.
+func endsInPartialLine(file string) bool {
+	f, err := os.Open(file)
+	if err != nil {
+		return false
+	}
+	defer func() {
+		_ = f.Close()
+	}()
+	fi, err := f.Stat()
+	if err != nil || fi.Size() == 0 {
+		return false
+	}
+	last := make([]byte, 1)
+	if _, err := f.ReadAt(last, fi.Size()-1); err != nil {
+		return false
+	}
+	return last[0] != '\n'
 }
 
 // write appends the status to the local file.
